@@ -1935,6 +1935,9 @@ class Sym:
             if isinstance(st, ast.For):
                 self.for_stmt(st, env)
                 continue
+            if isinstance(st, ast.While) and self.spec.loop and self.spec.loop_over == 'while' and not self.in_loop and self.depth == 0:
+                self.generic_iteration(st, env)        # one pass through the body of the `while`, from an arbitrary loop state
+                raise LoopDone()
             if isinstance(st, ast.Match):
                 subj = self.ev(st.subject, env)
                 done = False
@@ -2157,7 +2160,7 @@ class Sym:
                 self.assign(st.target, x, env)
             self.block(st.body, env)
 
-    def generic_iteration(self, st: ast.For, env: dict):
+    def generic_iteration(self, st, env: dict):
         """one iteration of `for v in range(…)` from an arbitrary loop state (see SymKernel.loop)"""
         inputs = {(i if isinstance(i, str) else i[0]) for i in self.spec.inputs}
         for n in sorted(self.assigned(st.body)):
@@ -2175,7 +2178,7 @@ class Sym:
                 env[n] = R(lean_ident(n), frozenset([n]))
             else:
                 env[n] = Uv('loop-carried local')
-        if isinstance(st.target, ast.Name):
+        if isinstance(st, ast.For) and isinstance(st.target, ast.Name):
             v = st.target.id
             env[v] = R(lean_ident(v), frozenset([v])) if v in inputs else Uv('loop variable')
         self.in_loop = True
@@ -2360,6 +2363,15 @@ SYM_KERNELS.append(SymKernel('traj_window_lo', _TR, '_trajectory_slice', [('n', 
                              'return/0', out='nat', **_SL))
 SYM_KERNELS.append(SymKernel('traj_window_hi', _TR, '_trajectory_slice', [('n', 'nat'), ('n_climb', 'nat'), ('n_descent', 'nat')],
                              'return/1', out='nat', **_SL))
+# mass iteration of the builder base class (C02 / C17): the residual of one flight iteration, and the correction one pass of the
+# `while` loop applies to the starting mass and to the trip fuel
+_BASE = 'trajectories/builders/base.py'
+SYM_KERNELS.append(SymKernel('iter_mass_residual', _BASE, 'Builder._fly_iteration', ['final_mass'], 'mass_residual',
+                             cut_expr={'traj.aircraft_mass[-1]': ('final_mass', 'real')}))
+for _t in ('self.starting_mass', 'self.total_fuel_mass'):
+    SYM_KERNELS.append(SymKernel('iter_correct_' + _t.split('.')[-1], _BASE, 'Builder._iterate_mass', ['mass_res'], _t,
+                                 loop=True, loop_over='while', cut=('mass_res',),
+                                 cond_consts={'abs(mass_res) < self.options.mass_iter_reltol': False}))
 SYM_KERNELS.append(SymKernel('weather_ground_speed', 'weather.py', 'Weather.get_ground_speed',
                              ['true_airspeed', 'heading_rad', 'wind_u', 'wind_v'], 'return',
                              cut=('heading_rad', 'wind_u', 'wind_v')))
